@@ -284,14 +284,16 @@ impl StakeKeeper {
         // calculate time since last update (in seconds)
         let time_diff = current_time.minus_seconds(since.seconds()).seconds();
 
-        // using decimal here to reduce rounding error when calling this function a lot
-        let reward = Decimal::from_ratio(stake, 1u128)
-            * interest_rate
-            * Decimal::from_ratio(time_diff, 1u128)
-            / Decimal::from_ratio(YEAR, 1u128);
-        let commission = reward * validator_commission;
+        // using decimal here to reduce rounding error when calling this function a lot;
+        // the products are formed in 256 bits: stake * rate * seconds leaves the range of `Decimal`
+        // (a billion tokens of a coin with six decimals, staked for 39 days) although the reward does not
+        let reward = Decimal256::from_ratio(stake, 1u128)
+            * Decimal256::from(interest_rate)
+            * Decimal256::from_ratio(time_diff, 1u128)
+            / Decimal256::from_ratio(YEAR, 1u128);
+        let commission = reward * Decimal256::from(validator_commission);
 
-        reward - commission
+        Decimal::try_from(reward - commission).expect("the reward is in the range of the stake")
     }
 
     /// Updates the staking reward for the given validator and their stakers
